@@ -19,7 +19,7 @@ from .. import core, tlc, traceval
 BAD_KINDS = ["pyobject", "pyapply", "pynew", "pyname", "pymodule", "pytuple", "pycomplex", "pybytes", "pystr", "pyint", "pylist", "pydict", "pyunicode", "pylong", "pyfloat", "pybool", "pynone", "unregistered", "unregistered_dotted", "unregistered_prefixed"]
 NAMED = ["pyobject", "pyapply", "pynew", "pyname", "pymodule", "unregistered_dotted"]
 TARGETS = ["sentinel", "canary_class", "os_system", "unimported", "plugin_class"]
-POSITIONS = ["pipeline_item", "lazy_arg", "lazy_nested", "lazyfn_nested", "eager_arg", "type_arg", "logging", "root", "mapkey", "section_value", "merge_value", "tagkey", "second_document", "dupkey", "merge_shadowed", "root_tagged"]
+POSITIONS = ["pipeline_item", "lazy_arg", "lazy_nested", "lazyfn_nested", "eager_arg", "type_arg", "logging", "root", "mapkey", "section_value", "merge_value", "tagkey", "second_document", "dupkey", "merge_shadowed", "root_tagged", "dot_section", "last_seq_arg"]
 INVARIANTS = ["OnlyRegistered", "BadIsRejected"]
 
 
@@ -121,6 +121,12 @@ def render(doc, n, marker):
             sections["_second"] = y
         elif p == "root_tagged":
             sections["_roottag"] = y.split(" ", 1)[0]
+        elif p == "dot_section":
+            # a top-level section with a dot name (a "hidden" block of anchors, say)
+            sections["_dot"] = y
+        elif p == "last_seq_arg":
+            # the last positional argument of a registered tag written in sequence form
+            sections["pipeline"].insert(0, "!VCtrl [1, %s]" % y if j % 2 == 0 else "!VEager [%s]" % y)
         elif p == "dupkey":
             # a duplicate key: the earlier value is shadowed by the later one, but it is there
             sections["__config_test"]["d%d" % j] = "{k: %s, k: 1}" % y
@@ -132,6 +138,8 @@ def render(doc, n, marker):
     if sections.get("_roottag"):
         # the tag sits on the ROOT mapping of an otherwise valid configuration
         lines.append("--- " + sections["_roottag"])
+    if sections.get("_dot"):
+        lines.append(".templates: " + sections["_dot"])
     if sections["logging"]:
         lines.append("logging: " + sections["logging"])
     if sections["__config_test"]:
